@@ -130,3 +130,98 @@ class dfs_iterative_step:
 
     def post_loop_goes_on(flow):
         return flow == 'next'
+
+
+# ------------------------------------------------------------------------------------------------ the listing queries of Document
+from pyvc.ghost import ghost_get, ghost_set, fresh_list, symbolic_run
+from kernpy.core.document import Node, MultistageTree
+from contracts.spec_cat import closure
+
+A_PRE = ('A-preorder: MultistageTree.dfs_iterative shows the traversal object the root and then every other node of the tree, once each, '
+         'in preorder (order: dfs_iterative_step + A-dfs; on whole documents: bounded contract token_queries_agree)')
+
+
+@contract(DOC + 'MultistageTree.dfs_iterative', props=['C17'], name='dfs_summary', local=True, assumed=A_PRE)
+class dfs_summary:
+    def model(self, visit_method):
+        for n in ghost_get('preorder'):
+            visit_method.visit(n)
+        return None
+
+
+@contract(DOC + 'TokensTraversal.__init__', props=['C17'], name='tokens_traversal_init_summary', local=True,
+          assumed='abstraction of TokensTraversal.__init__ (verified by contract tokens_traversal_init): empty collections, the two options stored')
+class tokens_traversal_init_summary:
+    def model(self, non_repeated, filter_by_categories):
+        self.tokens = fresh_list()
+        self.seen_encodings = fresh_list()
+        self.non_repeated = non_repeated
+        self.filter_by_categories = filter_by_categories
+        return None
+
+
+def mk_listed_document(g):
+    """a document whose tree is known through its preorder only: the root (no token) followed by any number of nodes with a token"""
+    def node(e):
+        tok = e.new(type_simple(), {'encoding': e.str_sym('encoding'), 'category': e.enum('category', TokenCategory), 'hidden': False}, None)
+        return e.new(Node, {'id': e.int('id', 1), 'token': tok}, None)
+    rest = g.seq('preorder', node)
+    root = g.new(Node, {'id': 0, 'token': None, 'children': []}, None)
+    tree = g.new(MultistageTree, {'root': root, 'stages': []}, None)
+    doc = g.new(Document, {'tree': tree, 'measure_start_tree_stages': [], 'page_bounding_boxes': {}, 'header_stage': None}, None)
+    ghost_set('preorder', [root] + rest)
+    return doc, rest
+
+
+def native_listed_document(g):
+    import kernpy as kp
+    from contracts.gen_doc import gen_score
+    doc, _ = kp.loads(gen_score(g.seeded_rng('doc.seed')).text())
+    rest = []
+
+    def walk(n):
+        if n.token is not None:
+            rest.append(n)
+        for c in n.children:
+            walk(c)
+    walk(doc.tree.root)
+    return doc, rest
+
+
+@contract(DOC + 'Document.get_all_tokens', props=['C17'])
+class get_all_tokens:
+    """C17: the token listing is the preorder of the tree restricted to the selected categories (the given categories with their
+    descendants; all of them when none is given): nothing reordered, nothing repeated or dropped."""
+    uses = ('dfs_summary', 'tokens_traversal_init_summary')
+    assumes = (A_PRE,)
+
+    def inputs(g):
+        doc, rest = mk_listed_document(g) if g.symbolic else native_listed_document(g)
+        f = g.choice('filter', ['none', 'set'])
+        return {'self': doc, 'filter_by_categories': None if f == 'none' else g.enum_set('cats', TokenCategory), '_rest': rest}
+
+    modifies = ()
+
+    def post_listing_is_filtered_preorder(result, filter_by_categories, rest):
+        sel = set(members(TokenCategory)) if filter_by_categories is None else closure(filter_by_categories)
+        want = [n.token for n in rest if n.token.category in sel]
+        return conj(len(result) == len(want), [t.encoding for t in result] == [t.encoding for t in want],
+                    [t.category for t in result] == [t.category for t in want])
+
+
+@contract(DOC + 'Document.get_all_tokens_encodings', props=['C17'])
+class get_all_tokens_encodings:
+    """C17 (the queries agree with each other): the encoding listing is the text of every token of the token listing, in order"""
+    uses = ('dfs_summary', 'tokens_traversal_init_summary')
+    assumes = (A_PRE,)
+
+    def inputs(g):
+        doc, rest = mk_listed_document(g) if g.symbolic else native_listed_document(g)
+        f = g.choice('filter', ['none', 'set'])
+        return {'self': doc, 'filter_by_categories': None if f == 'none' else g.enum_set('cats', TokenCategory), '_rest': rest}
+
+    modifies = ()
+
+    def post_texts_of_the_token_listing(result, filter_by_categories, rest):
+        sel = set(members(TokenCategory)) if filter_by_categories is None else closure(filter_by_categories)
+        return result == [n.token.encoding for n in rest if n.token.category in sel]
